@@ -32,6 +32,10 @@ SumsFrom(acc, i) ==
     ELSE SumsFrom(Append(acc, AddW(M, acc[i], Delta)), i + 1)
 Sums == TLCEval(SumsFrom(<<W32(0, 0)>>, 1))
 
+\* key word selectors of cycle c: sum & 3 before, (sum >> 11) & 3 after the increment
+SelA == TLCEval([c \in 1..Cycles |-> LowBits(M, Sums[c], 2)])
+SelB == TLCEval([c \in 1..Cycles |-> LowBits(M, ShRW(M, Sums[c + 1], 11), 2)])
+
 \* (((v << 4) ^ (v >> 5)) + v) ^ (sum + k[sel])   with sel in 0..3
 F(k, v, sum, sel) ==
     XorW(AddW(M, XorW(ShLW(M, v, 4), ShRW(M, v, 5)), v), AddW(M, sum, k[sel + 1]))
@@ -40,16 +44,16 @@ F(k, v, sum, sel) ==
 EncCycle(k, c, s) ==
     LET s0 == Sums[c]       \* sum before the cycle
         s1 == Sums[c + 1]   \* sum after  "sum += delta"
-        v0 == AddW(M, s[1], F(k, s[2], s0, LowBits(M, s0, 2)))
-        v1 == AddW(M, s[2], F(k, v0, s1, LowBits(M, ShRW(M, s1, 11), 2)))
+        v0 == AddW(M, s[1], F(k, s[2], s0, SelA[c]))
+        v1 == AddW(M, s[2], F(k, v0, s1, SelB[c]))
     IN TLCEval(<<v0, v1>>)
 
 \* the inverse cycle
 DecCycle(k, c, s) ==
     LET s0 == Sums[c]
         s1 == Sums[c + 1]
-        v1 == SubW(M, s[2], F(k, s[1], s1, LowBits(M, ShRW(M, s1, 11), 2)))
-        v0 == SubW(M, s[1], F(k, v1, s0, LowBits(M, s0, 2)))
+        v1 == SubW(M, s[2], F(k, s[1], s1, SelB[c]))
+        v0 == SubW(M, s[1], F(k, v1, s0, SelA[c]))
     IN TLCEval(<<v0, v1>>)
 
 RECURSIVE EncFrom(_, _, _)
